@@ -16,6 +16,10 @@ CLAIMED = {
                 design='DESIGN.md 4/C01'),
     'C06': dict(text='Bounded model checking of BDDEnv::fp with a symbolic total transformer (all functions on 1..2 variables, 8 / 64 unknown table bits) and of lfp/gfp formulas: fixed-point sketches (bodies up to 3 internal nodes, all labels symbolic, shadowing by inner binders included) through the real MIR against the reference iteration semantics, termination within the unrolling bound, plus extremality (below/above every fixed point P, P an unknown table) of the reference result for syntactically monotone bodies.',
                 design='DESIGN.md 4/C06'),
+    'C08': dict(text='Bounded model checking of the real MIR of the recursive-descent parser on token arrays of length 0..6 (8 thorough) whose kinds are unknowns over the full 31-kind alphabet, against an independent reference parser of the documented grammar run on the same symbolic array (both reject, or both accept with structurally equal trees); plus the tokenizer\'s text-to-token table executed from MIR under a contract model of the regex engine. The regex engine\'s own matching (longest match, alternation order, separators, comments) is outside the claim.',
+                design='DESIGN.md 4/C08'),
+    'C12': dict(text='Bounded model checking of panic freedom: the panic condition collected by the executor (explicit panics, index bounds, arithmetic overflow in both profiles, expect/unwrap, RefCell borrows, loop bound) is unsatisfiable for tokenize (regex contract, numbers up to 24 digits), parse_formula on all token sequences up to the bound, the constructor, var_is_free and eval on sketches, and printing with non-contiguous ids.',
+                design='DESIGN.md 4/C12'),
     'C09': dict(text='Bounded model checking of var_is_free, of the constructor (new_with_env / extract_vars / sort closure / raw2free loop; tokenizer and parser stubbed to return the sketch) and of the support of the evaluated diagram on syntax-tree sketches with all labels symbolic over 3 atoms: exact free-variable sets in variable order, every id once in vars, consistent raw2free, answers depend only on free variables.',
                 design='DESIGN.md 4/C09'),
     'C13': dict(text='Bounded model checking of history independence and sharing: two-operation histories in one environment with the state threaded through the real code (k=2), every table lookup free to hit or miss in all other checks, the table invariant established by new() and preserved by every insert, and per-allocation ownership tracking showing every returned node and descendant is the table\'s node.',
